@@ -82,6 +82,11 @@ def evalStateless (tag : String) (a : List String) : Option (String × String) :
     -- does a frame of this total size pass the receive guard read from conn.Recv?
     let r := Wire.rejects Generated.connRecvGuard (natArg total) (natArg maxrx)
     some (if r then "lost" else "delivered", if r then "refused" else "fits")
+  | "mc.conflict", [_, k] => some (Macat.conflictVerdict (natArg k), "conflict")
+  | "ws.enc", [h, b] =>
+    -- WebSocket mapping: one binary frame (opcode 2) carrying protocol header then body
+    some ("2:" ++ toHexD (hexArg h ++ hexArg b), "frame")
+  | "ws.sub", [_] => some ("pair1" ++ ".sp.nanomsg.org", "sub")   -- "<peer-name>.sp.nanomsg.org" (Obl.Proto.ws_subprotocol ties the suffix to ws.go)
   | "lim.fit", [_, _, _, maxrx, total] =>
     -- the same verdict for a limit configured on a real transport by any route (socket, option map, SetOption, late)
     let r := Wire.rejects Generated.connRecvGuard (natArg total) (natArg maxrx)
